@@ -44,6 +44,37 @@ pub fn main() -> i32 {
                 }
             }
         }
+        "genstats" => {
+            // developer aid: acceptance statistics of the fragment generator
+            let n: usize = argv.get(3).and_then(|s| s.parse().ok()).unwrap_or(200);
+            let mut x: u64 = 0x9e3779b97f4a7c15;
+            let mut by: std::collections::BTreeMap<String, (usize, String)> = Default::default();
+            let mut ok = 0;
+            for _ in 0..n {
+                let tape: Vec<u32> = (0..160).map(|_| { x ^= x << 13; x ^= x >> 7; x ^= x << 17; (x >> 16) as u32 }).collect();
+                let b = crate::progrun::build(&tape, crate::gen::GenCfg::default());
+                match crate::ergx::compile(&b.erg, "3.11", 1) {
+                    Ok(_) => ok += 1,
+                    Err(d) => {
+                        if let Some(e) = d.iter().find(|d| !d.is_warning) {
+                            let line = e.ln_begin.and_then(|l| b.erg.lines().nth(l as usize - 1)).unwrap_or("").to_string();
+                            let key = format!("{} {}", e.kind, vkit::panics::norm_msg(&e.msg.chars().take(90).collect::<String>()));
+                            if !by.contains_key(&key) {
+                                let _ = std::fs::write(format!("/verif/target/work/t/rej{}.er", by.len()), &b.erg);
+                            }
+                            let ent = by.entry(key).or_insert((0, line));
+                            ent.0 += 1;
+                        }
+                    }
+                }
+            }
+            println!("accepted {ok}/{n}");
+            let mut v: Vec<_> = by.into_iter().collect();
+            v.sort_by(|a, b| b.1 .0.cmp(&a.1 .0));
+            for (k, (c, line)) in v.into_iter().take(25) {
+                println!("{c:4} {k}\n       e.g. {}", vkit::util::truncate(&line, 200));
+            }
+        }
         "parse1" => match SimpleParser::parse(src) {
             Ok(art) => println!("{}", art.ast),
             Err(iart) => println!("ERR {:?}", iart.errors),
